@@ -191,3 +191,35 @@ func VH_C15_BatchedUpdateEntriesIndependent() {
 	vAssert("batch_password_marker_keeps_password", len(am.updated) == 1 && am.updated[0].Password == "H:old")
 	vAssert("batch_creates_nothing", len(am.created) == 0)
 }
+
+// [rename bob -> rob, modify amy] in one request: the second entry acts on amy, not on the first entry's login.
+func VH_C15_BatchedRenameThenModify() {
+	srv, cc := vNewServer()
+	cc.Account.Access = hotline.AccessBitmap{0xff, 0xff, 0xff, 0xff, 0xff, 0xff, 0xff, 0xff}
+	am := &vStubAM{getResult: &hotline.Account{Login: "bob", Name: "Bob", Password: "H:old"}, getResult2: &hotline.Account{Login: "amy", Name: "Amy", Password: "H:amy"}}
+	srv.AccountManager = am
+	obf := func(s string) []byte {
+		b := []byte(s)
+		for i := range b {
+			b[i] = 255 - b[i]
+		}
+		return b
+	}
+	ren := []byte{0, 4}
+	ren = append(ren, vSubField(hotline.FieldData, obf("bob"))...)
+	ren = append(ren, vSubField(hotline.FieldUserLogin, obf("rob"))...)
+	ren = append(ren, vSubField(hotline.FieldUserName, []byte("Bob"))...)
+	ren = append(ren, vSubField(hotline.FieldUserPassword, []byte{0})...)
+	mod := []byte{0, 3}
+	mod = append(mod, vSubField(hotline.FieldUserLogin, obf("amy"))...)
+	mod = append(mod, vSubField(hotline.FieldUserName, []byte("Amelia"))...)
+	mod = append(mod, vSubField(hotline.FieldUserPassword, []byte("newpw"))...)
+	t := hotline.NewTransaction(hotline.TranUpdateUser, cc.ID, f(hotline.FieldData, ren), f(hotline.FieldData, mod))
+	res := HandleUpdateUser(cc, &t)
+	vAssert("batch2_ok_reply", len(res) >= 1 && !vIsErrReply(res[len(res)-1:]))
+	vAssert("batch2_two_updates", len(am.updated) == 2 && len(am.created) == 0 && len(am.deleted) == 0)
+	if len(am.updated) == 2 {
+		vAssert("batch2_first_is_the_rename", am.updated[0].Login == "bob" && am.updatedNew[0] == "rob" && am.updated[0].Password == "H:old")
+		vAssert("batch2_second_acts_on_amy", am.updated[1].Login == "amy" && am.updatedNew[1] == "amy" && am.updated[1].Name == "Amelia" && am.updated[1].Password == "H:newpw")
+	}
+}
